@@ -42,7 +42,7 @@ def budget(tier):
 def gen_ops(H, n):
     ops = []
     for _ in range(n):
-        k = H.weighted([("create", 4), ("map", 2), ("mutate", 3), ("crossover", 2), ("search", 1), ("other_grammar", 1)])
+        k = H.weighted([("create", 4), ("map", 2), ("mutate", 3), ("crossover", 2), ("search", 1), ("other_grammar", 1), ("create_symbol", 1)])
         ops.append((k, H.draw(64), H.draw(64), H.draw(4)))
     return ops
 
@@ -79,6 +79,31 @@ def do_search(w, which, ctx):
     w.install_flaky()
     w.guarded(res, go)
     ctx.log("op search", which, res.ok, res.error)
+    return res
+
+
+def do_create_symbol(w, pick, ctx):
+    """a creation request for an arbitrary class of the supplied list (what a metahandler's rec(...), a typed mutation or
+    random_node does) -- possibly one the grammar never registered because it is unreachable from the start symbol"""
+    from geneticengine.representations.tree.initializations import MaxDepthDecider
+    from geneticengine.representations.tree.treebased import random_node
+    from ..seams import SimRandom
+    from ..world import OpResult
+
+    res = OpResult("create_symbol")
+    classes = [w.built.cls[c["name"]] for c in w.spec["classes"]]
+    target = classes[pick % len(classes)]
+
+    def go():
+        rnd0 = SimRandom(ctx, "uniform", log=False)
+        return random_node(rnd0, w.grammar, target, MaxDepthDecider(rnd0, w.grammar, (w.max_depth or 3) + 2))
+
+    w.install_flaky()
+    try:
+        w.guarded(res, go)
+    except Exception:
+        pass
+    ctx.log("op create_symbol", w.built.name_of.get(target), res.ok, res.error)
     return res
 
 
@@ -161,6 +186,8 @@ def execute(ctx, spec, config, ops, r_seed, fail_at, multi, base_depth_delta):
                 res = w.op_crossover(a % len(w.pool), b % len(w.pool))
             elif k == "other_grammar":
                 res = do_other_grammar(w, a, ctx)
+            elif k == "create_symbol":
+                res = do_create_symbol(w, a, ctx)
             else:
                 res = do_search(w, c, ctx)
             if not res.ok:
